@@ -1,25 +1,25 @@
 #!/bin/bash
-# keep_mutant6.sh FID NEWID : confirm a free-choice (round 6+) mutant in its worktree /tmp/mut6/FID and store it as seeded/NEWID
+# keep_mutant6.sh FID NEWID : confirm a free-choice (round 6+) mutant in its worktree /tmp/mut${ROUND:-6}/FID and store it as seeded/NEWID
 set -u
-fid=$1; id=$2; wt=/tmp/mut6/$fid
+fid=$1; id=$2; wt=/tmp/mut${ROUND:-6}/$fid
 export CARGO_NET_OFFLINE=true CARGO_TARGET_DIR=$wt/target
 cd $wt || exit 2
-git diff -- src shred-derive > /tmp/mut6/$fid.patch
-[ -s /tmp/mut6/$fid.patch ] || { echo "no change in worktree"; exit 2; }
-cargo test --workspace --no-fail-fast --offline 2>&1 | grep -E "^test result|Running|FAILED|failed" > /tmp/mut6/$fid.with.log
-with_demo_fail=$(grep -A2 "mutant_demo" /tmp/mut6/$fid.with.log | grep -c "FAILED")
-others_fail=$(awk '/Running/{cur=$0} /test result: FAILED/{if (cur !~ /mutant_demo/) n++} END{print n+0}' /tmp/mut6/$fid.with.log)
-git apply -R /tmp/mut6/$fid.patch
-cargo test --offline --test mutant_demo 2>&1 | grep -E "^test result" > /tmp/mut6/$fid.without.log
-without_ok=$(grep -c "test result: ok" /tmp/mut6/$fid.without.log)
-git apply /tmp/mut6/$fid.patch
+git diff -- src shred-derive > /tmp/mut${ROUND:-6}/$fid.patch
+[ -s /tmp/mut${ROUND:-6}/$fid.patch ] || { echo "no change in worktree"; exit 2; }
+cargo test --workspace --no-fail-fast --offline 2>&1 | grep -E "^test result|Running|FAILED|failed" > /tmp/mut${ROUND:-6}/$fid.with.log
+with_demo_fail=$(grep -A2 "mutant_demo" /tmp/mut${ROUND:-6}/$fid.with.log | grep -c "FAILED")
+others_fail=$(awk '/Running/{cur=$0} /test result: FAILED/{if (cur !~ /mutant_demo/) n++} END{print n+0}' /tmp/mut${ROUND:-6}/$fid.with.log)
+git apply -R /tmp/mut${ROUND:-6}/$fid.patch
+cargo test --offline --test mutant_demo 2>&1 | grep -E "^test result" > /tmp/mut${ROUND:-6}/$fid.without.log
+without_ok=$(grep -c "test result: ok" /tmp/mut${ROUND:-6}/$fid.without.log)
+git apply /tmp/mut${ROUND:-6}/$fid.patch
 echo "$fid: with change: demo FAILED=$with_demo_fail other failing targets=$others_fail ; without change: demo ok=$without_ok"
 if [ "$with_demo_fail" -ge 1 ] && [ "$others_fail" -eq 0 ] && [ "$without_ok" -ge 1 ]; then
   d=/verif/seeded/$id; mkdir -p $d
-  cp /tmp/mut6/$fid.patch $d/patch.diff
+  cp /tmp/mut${ROUND:-6}/$fid.patch $d/patch.diff
   cp $wt/tests/mutant_demo.rs $d/mutant_demo.rs
   [ -f $wt/MUTANT.md ] && cp $wt/MUTANT.md $d/MUTANT.md
   echo "kept $d"
 else
-  echo "NOT kept"; cat /tmp/mut6/$fid.with.log /tmp/mut6/$fid.without.log
+  echo "NOT kept"; cat /tmp/mut${ROUND:-6}/$fid.with.log /tmp/mut${ROUND:-6}/$fid.without.log
 fi
